@@ -98,6 +98,7 @@ type Cfg struct {
 	PlainPct int // share of plain (non-generator) consumer functions
 	Prefix   string // prefix of generated function and file names
 	NoHelp   bool   // do not emit the helper declarations (another program of the same package has them)
+	OptFile  string // file name of the optimiser templates (default gen_opt.go; C15 makes it sort first)
 	Tick     bool   // expressions may call the helper tick() of the plain helper file
 }
 
@@ -1171,13 +1172,17 @@ func GenProg(r *prng.R, cfg Cfg, pkg string) *Prog {
 		g.prog.Files = append(g.prog.Files, &File{Name: cfg.Prefix + "helpers.go", Decls: []string{PickDecl, HelperDecls}})
 	}
 	if cfg.Profile == "consumer" {
-		src, ref, fs := consumerTemplates(r, g.nextTag)
+		src, ref, fs, plain, pfs := consumerTemplates(r, g.nextTag)
 		tf := &File{Name: "gen_types.go", UsesAPI: true, Decls: src, RefDecls: ref, Extern: fs}
-		g.prog.Files = append(g.prog.Files, tf)
+		g.prog.Files = append(g.prog.Files, tf, &File{Name: "plain_rotate.go", Decls: plain, Extern: pfs})
 	}
 	if (cfg.Profile == "all" || cfg.Profile == "bystander") && !cfg.NoHelp {
 		imps, src, ref, fs := optTemplates(r, g.nextTag)
-		tf := &File{Name: "gen_opt.go", UsesAPI: true, Decls: src, RefDecls: ref, Extern: fs, Imports: imps}
+		name := "gen_opt.go"
+		if cfg.OptFile != "" {
+			name = cfg.OptFile
+		}
+		tf := &File{Name: name, UsesAPI: true, Decls: src, RefDecls: ref, Extern: fs, Imports: imps}
 		g.prog.Files = append(g.prog.Files, tf)
 	}
 	return g.prog
